@@ -153,3 +153,19 @@ PROPS["C19"] = {
     "level_note": "FractionScalar forms not yet under contract; eval(repr(float)) == float assumed (A12); quantity equality through Quantity.__eq__ (C07)",
     "trusted": STD_TRUSTED + ["eval(repr(x)) == x for finite floats (A12)"],
 }
+
+FA = "barril.units._fixedarray:FixedArray"
+PROPS["C11"] = {
+    "tasks": lambda tier: [V(FA + "._InternalCreateWithQuantity#constructors"), V("barril.curve.curve:Curve#length-invariant"), V(AVQ + ".__init__#forms")] + VP(FA + "#operations", 15),
+    "level": "proof",
+    "level_text": "FixedArray: with values of symbolic, unbounded length (list, tuple, ndarray) and a symbolic dimension, every constructor route - FixedArray(dim, ...), CreateWithQuantity with and without dimension, CreateEmptyArray with and without values, the construction forms of C19 - is proved to yield len(values) == dimension >= 2 or to raise ValueError (dimension below 2, length mismatch), following the real _InternalCreateWithQuantity state machine. For an existing array satisfying the invariant: CreateCopy (plain, with values, with another unit), __reduce__ + rebuild, arithmetic with a number, ChangingIndex (number, Scalar, Scalar keeping the array's unit; symbolic index incl. negative) and IndexAsScalar are proved to return a new array/Scalar satisfying the invariant with the same dimension, element j equal to the source's element j re-expressed in the result unit for every j other than the index, the supplied amount at the index, the right quantity (category kept), IndexError / unit errors otherwise - and the source array (fields, dimension, container contents) is proved unchanged on every path, raising or not. Curve: constructor, SetImage, SetDomain (also through the property, and in sequence) keep len(image) == len(domain) or raise ValueError leaving the curve untouched.",
+    "level_note": "FixedArray quantities: simple; value tuple form of ChangingIndex and FixedArray op Array arithmetic are replayed natively by the fixedarray probe only; pickle assumed to rebuild from __reduce__ (A8); floats are reals",
+    "trusted": STD_TRUSTED + ["pickle protocol (A8)", "numpy elementwise arithmetic (A5)"],
+}
+PROPS["C13"] = {
+    "tasks": lambda tier: [V(SC + ".GetAbstractValue"), V(AVQ + ".CreateCopy"), V(SC + ".__lt__#ordering"), V(AVQ + ".GetValidUnits"), V(QM + ":Quantity#value-semantics"), V(QM + ":Quantity.CheckValue"), V(QM + ":Quantity.ConvertScalarValue"), V(UDB + ":UnitDatabase.Convert")] + VP(FA + "#operations", 15) + VP(OPS_KEY, 10) + VP(AOPS_KEY, 12),
+    "level": "proof",
+    "level_text": "Frame (modifies) obligations on every value-object operation under contract, with operand containers of symbolic unbounded length in region 'parameter': Scalar GetValue / CreateCopy / comparison / all ten arithmetic operators (incl. reflected and number operands), Array arithmetic for list-, tuple- and numpy-backed values (every write inside _DoOperation, _ValueGenerator and the database operations is checked to hit only objects allocated during the call), FixedArray CreateCopy / ChangingIndex / IndexAsScalar / __reduce__ / arithmetic, Quantity copy/eq/hash/reduce, UnitDatabase.Convert (results are new containers), CheckValue. Each proves: the receiver's and the other operand's fields are the same objects/values afterwards, the container contents are unchanged (array equality of the element maps), operand quantities are unchanged, results are new objects with new containers. CreateCopy() == self and reduce-rebuild == self are proved for Scalar-like simple/derived/empty quantities and FixedArray.",
+    "level_note": "FractionScalar operations and formatting (str/repr of Arrays) not yet under contract; numpy aliasing is modelled by container identity tokens; arithmetic shape-bounded as C03; floats are reals",
+    "trusted": STD_TRUSTED + ["numpy elementwise arithmetic returns new arrays (A5)"],
+}
